@@ -30,7 +30,7 @@ RULE = ("(script) every legal command sequence up to length L over {assert x3, a
 
 # ---------------------------------------------------------------- script side
 
-SCRIPT_LETTERS = ["A", "B", "C3", "S0", "Sg", "Sg2", "Sh", "P0", "P1", "P2", "Q0", "Q1", "Q2", "R", "K", "Mi", "Ma", "MM"]
+SCRIPT_LETTERS = ["A", "B", "C3", "S0", "Sg", "Sg2", "Sh", "P0", "P1", "P2", "Q0", "Q1", "Q2", "R", "K", "Mi", "Ma", "MM", "Mb"]
 
 
 class ScriptWorld(object):
@@ -79,6 +79,10 @@ class ScriptWorld(object):
         if letter == "Ma":
             return (SmtLibCommand(smtcmd.MAXIMIZE, [self.v, [(":signed", True)]]),
                     ("goal", "max", (self.v,), True))
+        if letter == "Mb":
+            # the options in the other order: :signed after :id
+            return (SmtLibCommand(smtcmd.MINIMIZE, [self.w, [(":id", "o2"), (":signed", True)]]),
+                    ("goal", "min", (self.w,), True))
         if letter == "MM":
             return (SmtLibCommand(smtcmd.MINMAX, [[self.v, self.w], [(":signed", False)]]),
                     ("goal", "minmax", (self.v, self.w), False))
@@ -93,6 +97,7 @@ TEXT = {
     "Q0": ["(pop 0)"], "Q1": ["(pop 1)", "(pop)"], "Q2": ["(pop 2)"],
     "R": ["(reset-assertions)"], "K": ["(check-sat)"],
     "Mi": ["(minimize x :id o1)"], "Ma": ["(maximize v :signed)"], "MM": ["(minmax v w)"],
+    "Mb": ["(minimize w :id o2 :signed)"],
 }
 DECLS = ("(declare-fun a () Bool)(declare-fun b () Bool)(declare-const c Bool)(declare-fun d () Bool)"
          "(declare-fun e () Bool)(declare-fun x () Int)(declare-fun y () Int)"
